@@ -145,7 +145,7 @@ def build(spec):
     def mps(mm=None):
         return rand_mps(rng, model, qn_size, mm or m, cplx)
 
-    if n == 1 and recipe in ("add", "dup", "apply_add", "recentred"):
+    if n == 1 and (recipe in ("add", "dup", "apply_add", "recentred") or recipe.startswith("canon_")):
         recipe = "random" if kind != "mpo" else "plain"      # MatrixProduct.add does not support one-site chains (C03's business)
     dm_cplx = False
     if kind == "mpdm" and cplx:
@@ -179,6 +179,28 @@ def build(spec):
             a.move_qnidx(rng.randrange(n))
             b = rand_like(rng, a, model, qn_size, m, cplx)
             x = b.add(a)
+        elif recipe.startswith("canon_"):
+            # sum / difference of two canonical states with EQUAL flags: every inner site of the result is a
+            # block-diagonal isometry, only the boundary site far from the centre (the stack of the two boundary
+            # sites) is not; the result keeps the flags of its operands
+            right = recipe.endswith("_r")
+            a = mps()
+            if right:
+                a.ensure_right_canonical()
+            else:
+                a.ensure_left_canonical()
+            b = a.copy()
+            k = 0 if right else len(b) - 1            # perturb the centre site only (keeps the sector)
+            t = np.asarray(b[k].array).copy()
+            t = t * np.linspace(0.3, 1.7, t.shape[1]).reshape(1, -1, 1)
+            if not t.any():
+                raise GenFail("zero site")
+            b[k] = t
+            if cplx:
+                b = b.scale(0.6 + 0.8j)
+            x = a.add(b) if "sum" in recipe else a.add(b.scale(-1.0))
+            if (bool(x.to_right), int(x.qnidx)) != ((True, 0) if right else (False, len(x) - 1)):
+                raise GenFail("sum of canonical states lost the flags")
         else:
             raise GenFail("recipe " + recipe)
         if hasattr(x, "coeff") and rng.random() < 0.5:
